@@ -137,6 +137,9 @@ def check(repo: Repo, rep: Report) -> None:
                "the new inner subscription is not routed through the SerialDisposable before subscribing: the previous inner "
                "is not disposed / the new one cannot be cancelled")
     TC.rule_scheduler_forwarded(rep, "F0-scheduler-forwarded", ch)
+    rt = repo.opt_fn("reactivex/operators/_retry.py", "retry_.subscribe")
+    if rt is not None:
+        TC.rule_scheduler_forwarded(rep, "F0-scheduler-forwarded", rt)
     TC.composite_uses(repo, rep, "Q3-delegations", COMPOSITES)
     for rel, name, param in (("reactivex/operators/_repeat.py", "repeat_", "repeat_count"), ("reactivex/operators/_retry.py", "retry_", "retry_count")):
         f = repo.fn(rel, name)
